@@ -41,7 +41,7 @@ ASSUMPTIONS = [
     "the composition L1-L7 => NativePortSpec is a paper argument (one address lives in one bank, a bank machine is a FIFO, "
     "data lines up by L4/L5); it is exercised, not proved, by the bounded end-to-end check",
     "end-to-end: bounded unrolling from reset (depth in evidence), refresh disabled inside the window (refresh interplay is "
-    "proved in C02/C04), one port, tiny geometry and timings, PHY modelled by its advertised read/write latency on a "
+    "proved in C02/C04), one or two ports, tiny geometry and timings, PHY modelled by its advertised read/write latency on a "
     "reference DRAM with a watched cell",
     "L4 assumes at most one bank strobe of each kind per cycle: guaranteed by the multiplexer (C02 phase-placement "
     "obligations: one column command per cycle)",
@@ -198,20 +198,31 @@ class CoreHarness(Module):
         self.settings = s
         self.submodules.ctrl = ctrl = LiteDRAMController(s.phy, s.geom, s.timing, 100e6, s)
         self.submodules.xbar = xbar = LiteDRAMCrossbar(ctrl.interface)
-        self.port = xbar.get_port()
+        self.ports = [xbar.get_port() for _ in range(cfg.get("nports", 1))]
+        self.port = self.ports[0]
         self.m_byte = Signal(8)
         self.m_en = Signal()
         # the crossbar never reads wdata.valid / rdata.ready / flush: keep them in the fragment so that they are inputs
         self._s = Signal(12)
         self.comb += self._s.eq(Cat(self.m_byte, self.m_en, self.port.wdata.valid, self.port.rdata.ready, self.port.flush))
+        self.side = [self]
+        for p in self.ports[1:]:
+            class _Side:
+                pass
+            sd = _Side()
+            sd.m_byte, sd.m_en, sd._s = Signal(8), Signal(), Signal(12)
+            self.comb += sd._s.eq(Cat(sd.m_byte, sd.m_en, p.wdata.valid, p.rdata.ready, p.flush))
+            self.side.append(sd)
 
 
 def core_contract(cfg):
     h = CoreHarness(cfg)
     ctrl, port, s = h.ctrl, h.port, h.settings
     dfi = ctrl.dfi
-    free = [port.cmd.valid, port.cmd.we, port.cmd.addr, port.cmd.last, port.wdata.data, port.wdata.we, port.wdata.valid,
-            port.rdata.ready, port.flush, h.m_byte, h.m_en]
+    free = []
+    for p_, sd in zip(h.ports, h.side):
+        free += [p_.cmd.valid, p_.cmd.we, p_.cmd.addr, p_.cmd.last, p_.wdata.data, p_.wdata.we, p_.wdata.valid,
+                 p_.rdata.ready, p_.flush, sd.m_byte, sd.m_en]
     for ph in dfi.phases:
         free += [ph.rddata, ph.rddata_valid]
     c = Contract("Core", h, free, cfg=cfg)
@@ -223,9 +234,24 @@ def core_contract(cfg):
     lane = c.rigid("lane", LW)
     init = c.rigid("init", 8)
     c.assume("watched_lane_in_range", lambda f: ULT(zext(lane, 8), BV(nb, 8)))
-    m = add_master(c, port, "usr", UA, lane, init, h, Qw=2, Qr=2)
-    c.assume("one_command_at_a_time", lambda f: Implies(Or(m["wq"].nonempty(f), m["rq"].nonempty(f), m["G"](f, "early")),
-                                                       Not(f.b(port.cmd.valid)))) if cfg.get("single", True) else None
+    multi = len(h.ports) > 1
+    masters = []
+    for i, (p_, sd) in enumerate(zip(h.ports, h.side)):
+        mm = add_master(c, p_, "usr%d" % i if multi else "usr", UA, lane, init, sd, Qw=2, Qr=2, shared_spec="spec" if multi else None)
+        masters.append(mm)
+        if cfg.get("single", True):
+            c.assume("one_command_at_a_time" + ("_port%d" % i if multi else ""), lambda f, mm=mm, p_=p_: Implies(
+                Or(mm["wq"].nonempty(f), mm["rq"].nonempty(f), mm["G"](f, "early")), Not(f.b(p_.cmd.valid))))
+    m = masters[0]
+    if multi:
+        # one memory for all ports: writes take effect in command acceptance order (two ports never have a command to
+        # the same address accepted in the same cycle: one bank machine accepts one request per cycle)
+        def spec_next(f):
+            v = f.g["spec"]
+            for mm, sd in zip(masters, h.side):
+                v = If_(mm["spec_write"](f), f(sd.m_byte), v)
+            return v
+        c.ghost("spec", 8, init, spec_next)
     # ---- reference DRAM at the DFI pins: watched cell = the (bank,row,col) the watched port address maps to (C06)
     align = ctrl.interface.address_align
     colw = s.geom.colbits - align
@@ -278,13 +304,20 @@ def core_contract(cfg):
     c.assume("phy.read_data_after_read_latency", lambda f: And(
         *[f.b(ph.rddata_valid) == (rnow(f) != 0) for ph in dfi.phases],
         Implies(rnow(f) == 3, byte_at(allr(f), lane, nb) == G(f, "mem"))))
-    for nm_, fn in m["read_clauses"].items():
-        c.bounded(nm_, fn)
-    c.bounded("write_strobe_only_for_a_pending_write", lambda f: Implies(f.b(port.wdata.ready), f.b(port.wdata.valid)))
+    for i, mm in enumerate(masters):
+        for nm_, fn in mm["read_clauses"].items():
+            c.bounded(nm_ + ("_port%d" % i if multi else ""), fn)
+    for i, p_ in enumerate(h.ports):
+        c.bounded("write_strobe_only_for_a_pending_write" + ("_port%d" % i if multi else ""), lambda f, p_=p_: Implies(
+            f.b(p_.wdata.ready), f.b(p_.wdata.valid)))
+    if multi:
+        m1 = masters[1]
+        c.cover("port1_reads_what_port0_wrote", lambda f: And(f.b(h.ports[1].rdata.valid), m1["rq"].nonempty(f), m1["rq"].head(f, "hit") == 1,
+                                                              m1["rq"].head(f, "exp") != init), within=cfg.get("depth", 24))
     hitrd = lambda f: And(f.b(port.rdata.valid), m["rq"].nonempty(f), m["rq"].head(f, "hit") == 1)
-    if cfg.get("single", True):
+    if cfg.get("single", True) and not multi:
         c.cover("watched_read_after_watched_write", lambda f: And(hitrd(f), m["rq"].head(f, "exp") != init), within=cfg.get("depth", 24))
-    else:
+    elif not cfg.get("single", True):
         c.cover("watched_read_returned", hitrd, within=cfg.get("depth", 24))
         c.cover("two_writes_in_flight", lambda f: m["wq"].cnt(f) == 2, within=cfg.get("depth", 24))
         c.cover("two_reads_in_flight", lambda f: m["rq"].cnt(f) == 2, within=cfg.get("depth", 24))
@@ -307,7 +340,8 @@ def tasks(tier):
     out += [dict(t) for t in c02.tasks(tier)] + [dict(t) for t in c06.tasks(tier)]
     ddr2 = dict(nphases=2, memtype="DDR2", cl=3, cwl=2, read_latency=3, write_latency=1, rdphase=0, wrphase=1, dfi_databits=8)
     # (cfg, depth): `single` = one command in flight at a time (deep), otherwise up to 2 writes + 2 reads in flight
-    runs = [(dict(single=True), 16), (dict(single=False), 13)] if tier == "quick" else [
+    runs = [(dict(single=True), 16), (dict(single=False), 13), (dict(single=True, nports=2), 17)] if tier == "quick" else [
+        (dict(single=True, nports=2), 20), (dict(single=False, nports=2), 13),
         (dict(single=True), 26), (dict(single=False), 18), (dict(single=True, with_auto_precharge=False, settings=ddr2), 22),
         (dict(single=False, with_auto_precharge=False, settings=ddr2), 15)]
     for cfg, d in runs:
